@@ -301,6 +301,9 @@ func (w *c15World) buildEntry(rt *rapid.T, kind string, v c15Val, height int64, 
 		if kind == "subset" && rapid.Bool().Draw(rt, "omit") {
 			continue
 		}
+		if kind == "ts-only" {
+			continue // signs the commit and dates it, prices nothing
+		}
 		put(p, big.NewInt(basePrice+int64(rapid.IntRange(0, 3).Draw(rt, "jitter"))))
 	}
 	switch kind {
@@ -509,9 +512,19 @@ func TestC15Rapid(t *testing.T) {
 			var kinds []string
 			forged := 0
 			mostlyHonest := rapid.IntRange(0, 9).Draw(rt, "honestRun") < 4
-			for _, v := range w.vals {
+			// one update in six: everybody signs, but the heaviest validators price nothing - the pairs are then
+			// backed by just the rest (e.g. 66 of 100 with powers 33-33-34: below two thirds)
+			tsOnlyFrom := -1
+			if rapid.IntRange(0, 5).Draw(rt, "heavyPricesNothing") == 0 && len(w.vals) >= 2 {
+				tsOnlyFrom = len(w.vals) - rapid.IntRange(1, (len(w.vals)+1)/2).Draw(rt, "nHeavy")
+			}
+			for vi, v := range w.vals {
 				kind := "honest"
-				if !mostlyHonest {
+				if tsOnlyFrom >= 0 {
+					if vi >= tsOnlyFrom {
+						kind = "ts-only"
+					}
+				} else if !mostlyHonest {
 					kind = drawWeighted(rt, "entry", c15Kinds)
 				} else if rapid.IntRange(0, 9).Draw(rt, "miss") == 0 {
 					kind = "missing"
@@ -560,11 +573,21 @@ func TestC15Rapid(t *testing.T) {
 				panic(err)
 			}
 			sender := w.exec.Str
-			if rapid.IntRange(0, 14).Draw(rt, "stranger") == 0 {
+			var oracleMsg sdk.Msg
+			switch rapid.IntRange(0, 14).Draw(rt, "stranger") {
+			case 0:
 				sender = w.stranger.Str
+			case 1:
+				// the admin (here the same account as the executor) batches an update whose sender is the module
+				// authority: the batch demands that signer, the update demands a bridge executor - which the authority is not
+				sender = w.l2.Authority
+				oracleMsg, _ = opchildtypes.NewMsgExecuteMessages(w.exec.Str, []sdk.Msg{opchildtypes.NewMsgUpdateOracle(sender, uint64(height), data)})
+			}
+			if oracleMsg == nil {
+				oracleMsg = opchildtypes.NewMsgUpdateOracle(sender, uint64(height), data)
 			}
 			before, digest := w.prices(), w.l2.Digest()
-			r := w.l2.Deliver(opchildtypes.NewMsgUpdateOracle(sender, uint64(height), data))
+			r := w.l2.Deliver(oracleMsg)
 			after := w.prices()
 			perPair, total, values := w.honestPower(votes, height, round)
 			w.logf("update(sender=%s height=%d stored=%d round=%d ts=%d entries=%v) -> %v", short(sender), height, w.storedHeight, round, ts, kinds, r.Err)
